@@ -89,8 +89,33 @@ pub fn run(args: &Args, rep: &mut Report) {
             work.push((m.clone(), kind));
         }
     }
+    // the key / context side: every context length, every single-bit key (kind 4/5, mode ignored)
+    let ctx_max = if t { 8300 } else { 3200 };
+    for part in 0..8u32 {
+        work.push((ModeSpec::Hash, 100 + part));
+    }
     let lens_ref = &lens;
     let r = vcommon::par_run(args.jobs, work, rep, |(m, kind), local| {
+        if *kind >= 100 {
+            let part = (*kind - 100) as usize;
+            let small = vcommon::stream_a(3000);
+            let mut ms: Vec<ModeSpec> = vec![];
+            for c in (0..=ctx_max).filter(|c| c % 8 == part) {
+                ms.push(ModeSpec::Derive(subject::context_of_len(c)));
+            }
+            if part == 0 {
+                ms.extend(subject::secondary_modes(true));
+            }
+            for m in &ms {
+                let mut oracle = b3spec::StreamOracle::new(m.spec(), small.clone());
+                for ops in [&[0usize][..], &[1], &[1025], &[65, 960, 1030]] {
+                    run_history(m, &small, ops, &[32, 65], &mut oracle, local);
+                    local.inc("distinct_nontrivial");
+                }
+            }
+            local.add("key_context_variants", ms.len() as u64);
+            return;
+        }
         let data = vcommon::stream_a(max);
         let mut oracle = b3spec::StreamOracle::new(m.spec(), data.clone());
         match kind {
@@ -136,7 +161,7 @@ pub fn run(args: &Args, rep: &mut Report) {
     rep.merge(r);
     vectors(rep);
     rep.configs.push(subject::config_json());
-    rep.rule = format!("reference_impl::Hasher in three modes: single update of every length 0..={} (+ lattice) with 32 and 131 output bytes; every history of <= {} updates over the fine alphabet and <= 3 (4 thorough) over the coarse alphabet; every output length 0..=200 and 1024/1025/4099 on six inputs; every field of test_vectors.json (key, context, 35 lengths, 3 x 131 bytes, input pattern) against the spec model and directly against the optimized crate and the reference implementation; non-trivial = distinct cases with >= 2 updates, or distinct lengths", full, if t { 5 } else { 4 });
+    rep.rule = format!("reference_impl::Hasher in three modes: single update of every length 0..={} (+ lattice) with 32 and 131 output bytes; every history of <= {} updates over the fine alphabet and <= 3 (4 thorough) over the coarse alphabet; every output length 0..=200 and 1024/1025/4099 on six inputs; derive_key with a context of every length 0..={} and keyed mode with every single-bit key (four histories each); every field of test_vectors.json (key, context, 35 lengths, 3 x 131 bytes, input pattern) against the spec model and directly against the optimized crate and the reference implementation; non-trivial = distinct cases with >= 2 updates, or distinct lengths", full, if t { 5 } else { 4 }, ctx_max);
     rep.assumptions.push("content restricted to stream A (the published vectors use exactly this pattern)".into());
 }
 
